@@ -32,6 +32,8 @@ func varDef(kind, site, name string) string {
 		return fmt.Sprintf("%s: '{{.%s}}+%s'", name, name, site)
 	case "sh":
 		return fmt.Sprintf("%s: {sh: 'echo %s-sh'}", name, site)
+	case "ref":
+		return fmt.Sprintf("%s: {ref: 'printf \"%%s+%s-ref\" (default \"\" .%s)'}", name, site, name)
 	}
 	return ""
 }
@@ -119,8 +121,8 @@ func evalVar(c vCase) *vMismatch {
 		probe = "GOT="
 	} else {
 		root := "version: '3'\nsilent: true\n"
-		if b("genv") {
-			root += "env: {E: genv}\n"
+		if k := s("genv"); k != "none" {
+			root += "env: {" + varDef(k, "genv", "E") + "}\n"
 		}
 		if g := s("gdot"); g != "none" {
 			root += "dotenv: ['.genv1', '.genv2']\n"
@@ -133,8 +135,8 @@ func evalVar(c vCase) *vMismatch {
 			}
 		}
 		root += "tasks:\n  target:\n"
-		if b("tenv") {
-			root += "    env: {E: tenv}\n"
+		if k := s("tenv"); k != "none" {
+			root += "    env: {" + varDef(k, "tenv", "E") + "}\n"
 		}
 		if g := s("tdot"); g != "none" {
 			root += "    dotenv: ['.tenv1', '.tenv2']\n"
